@@ -455,7 +455,16 @@ def correspond(ctx):
                          "object attribute; the model's description (bank order, register order, widths, pages) is derived from the "
                          "constructor parameters, never read back from the objects built"]
     ctx.jobs = jobs(ctx.tier, ctx.seed)
-    corpus_dis = run_corpus(ctx)
+    try:
+        corpus_dis = run_corpus(ctx)
+    except Exception as e:
+        import traceback
+        corpus_dis = [{"kind": "correspondence-exception", "instance": "corpus/C12", "what": "replaying the corpus raised %r" % (e,),
+                       "traceback": traceback.format_exc()[-2500:]}]
+        try:
+            ctx.lean.close_session()
+        except Exception:
+            pass
     if corpus_dis:
         ctx.log("corpus: %d disagreements" % len(corpus_dis))
     ctx.log("%d hardware jobs" % len(ctx.jobs))
@@ -621,7 +630,26 @@ def search(ctx, disagreements, proof_info):
             return {"instance": d["instance"], "input": {k: v for k, v in d.items() if k not in ("kind", "instance")},
                     "monitor": d["kind"][8:]}
     hw = [d for d in disagreements if not isinstance(d, dict)]
-    r = generic_search(ctx, hw, getattr(ctx, "jobs", None) or jobs(ctx.tier, ctx.seed), FMT)
+    all_jobs = getattr(ctx, "jobs", None) or jobs(ctx.tier, ctx.seed)
+    # first pass (cheap, complete): every disagreement trace of every instance is replayed on a fresh instance with
+    # the property monitor armed -- before any time-boxed random search starts
+    for d in hw:
+        if getattr(d, "kind", "").startswith("monitor:"):
+            continue
+        j = getattr(d, "job", None)
+        if j is None or j >= len(all_jobs):
+            continue
+        try:
+            inst = all_jobs[j].make()
+            if not hasattr(inst, "monitor"):
+                continue
+            hit = replay_with_monitor(inst, [tuple(l) for l in d.trace])
+        except Exception:
+            continue
+        if hit:
+            return {"instance": inst.name, "trace": [list(l) for l in d.trace[:hit[0] + 1]], "monitor": hit[1],
+                    "letter_format": FMT}
+    r = generic_search(ctx, hw, all_jobs, FMT)
     if r:
         return r
     # Python-level code: re-run the direct property checks on fresh random inputs
